@@ -112,6 +112,9 @@ def run(ctx):
     # explanation path: the Annotated cause finder interpreted with scripted validators (shared with C03.R8)
     from .c03 import _annotated_explanation_order
     _annotated_explanation_order(ctx, _gen.engines(ctx)[0].f, 'C12.R5')
+
+    # ---- R6 ---------------------------------------------------------------------
+    _operand_as_written(ctx, G, V)
     ctx.floor('C12.R4', sum(n for n, _ in groups.values()), 10, 'untainted Annotated shapes')
 
 
@@ -121,3 +124,44 @@ def _where(v, files):
         if lab.startswith(f + '[') or (f in '&|~' and (lab.startswith('(') or lab.startswith('~'))):
             return f'{path}:0'
     return 'beartype/vale/__init__.py:0'
+
+
+def _operand_as_written(ctx, G, V):
+    """R6: the object a leaf validator tests against is the object the user subscripted the factory with."""
+    from sa.fold import FuncVal, _Abort, _Raise, _call_function
+    from sa.gen import ALiteral, AType
+    from sa.spec import objkey, vcode, vlocals
+    ctx.rule('C12.R6', 'a validator means what the user wrote: interpreting Factory[argument] for IsEqual with argument ∈ {a literal, '
+             'a 1-tuple of it, a 2-tuple, a list} the object placed in the scope of the generated code — the right operand of '
+             '== — is that very argument (IsEqual[(3,)] compares with the tuple, not with 3); for IsInstance / IsSubclass with '
+             'argument ∈ {a class, a builtin class, a 1-tuple, a 2-tuple of classes} the scope object denotes exactly the classes given '
+             '(a class is reached through the scope of the generated code, never by a bare name the user\'s module may shadow)')
+    lit, lit2 = ALiteral('five'), ALiteral('six')
+    T1, T2 = AType('V'), AType('W')
+    TB = AType('range', is_builtin=True)
+    n = 0
+    for factory, args in (('IsEqual', [('literal', lit), ('1-tuple', (lit,)), ('2-tuple', (lit, lit2)), ('list', [lit])]),
+                          ('IsInstance', [('class', T1), ('builtin-class', TB), ('1-tuple', (T1,)), ('2-tuple', (T1, T2))]),
+                          ('IsSubclass', [('class', T1), ('builtin-class', TB), ('1-tuple', (T1,)), ('2-tuple', (T1, T2))])):
+        fobj = V.factories[factory]
+        getitem = fobj.cls.find('__getitem__')
+        ctx.require(isinstance(getitem, FuncVal), f'anchor vanished: {factory}.__getitem__')
+        where = ctx.repo.mod(getitem.module).where(getitem.node)
+        for shape, arg in args:
+            try:
+                v = _call_function(G.f, getitem, [fobj, arg], {}, 1)
+            except (_Abort, _Raise) as ex:
+                ctx.require(False, f'cannot interpret {factory}[{arg!r}]: {ex}')
+            loc = vlocals(v)
+            n += 1
+            if factory == 'IsEqual':
+                ok = any(o is arg or (type(o) is type(arg) and isinstance(arg, (tuple, list)) and len(o) == len(arg)
+                                      and all(a is b for a, b in zip(o, arg))) for o in loc.values())
+                ctx.ob('C12.R6', f'operand:{factory}:{shape}', where, 'the code compares with the argument as written', ok,
+                       f'{factory}[{arg!r}] places {list(loc.values())!r} in the scope of `{str(vcode(v)).strip().splitlines()[-1].strip()[:60]}`')
+            else:
+                want = frozenset(objkey(x) for x in (arg if isinstance(arg, tuple) else (arg,)))
+                got = [frozenset(objkey(x) for x in (o if isinstance(o, (tuple, list, set, frozenset)) else (o,))) for o in loc.values()]
+                ctx.ob('C12.R6', f'operand:{factory}:{shape}', where, 'the code tests against exactly the classes given', want in got,
+                       f'{factory}[{arg!r}] places {list(loc.values())!r} in the scope')
+    ctx.floor('C12.R6', n, 10, 'factory subscriptions')
